@@ -18,6 +18,10 @@ impl MatchPattern {
 }
 
 pub fn build_pattern(variants: &[String]) -> Result<MatchPattern, regex::Error> {
+    // An empty variant (a term without letters or digits renders to "") would match the empty
+    // string at every position, including the end of the content
+    let non_empty: Vec<String> = variants.iter().filter(|v| !v.is_empty()).cloned().collect();
+    let variants = non_empty.as_slice();
     if variants.is_empty() {
         return Ok(MatchPattern {
             regex: Regex::new("$^")?,
